@@ -56,6 +56,8 @@ class Module:
             self.funcs, self.classes = {}, {}
             self._index(self.tree, "", None)
         self.locals_recovered = localnames.recover(self)
+        for fn_ in self.funcs.values():
+            fn_._module_tree = self.tree
         ref_locals = localnames.reference().get(relpath)
         self.locals_propagated = 0
         if ref_locals is not None:
